@@ -96,6 +96,8 @@ def main(tier):
                 key = 'hyperedge:junction-placed-on-terminal-pin:degenerate-route'
             elif (sc['opts'] & 4) and t in ('connector-attached-to-deleted-junction', 'not-connected', 'not-a-tree', 'junction-is-a-leaf', 'terminals-changed', 'reported-new-object-not-live', 'route-does-not-join-its-attachments', 'connector-end-unattached'):
                 key = 'hyperedge:improver-adding-deleting-junctions:tree-broken'
+            if key == 'hyperedge:route-does-not-join-its-attachments' and sc['follow'] == 1:
+                key = 'hyperedge:after-terminal-shape-move:route-does-not-reach-pin'
             vd.violation(key, '%s: scenario=%s mode=%d -> %s' % (t, json.dumps(sc), x['mode'], json.dumps(brief)[:700]),
                          {'scenario': sc, 'mode': x['mode'], 'ops': hists[meta[i - 1]], 'snapshot': brief})
     ev.cov['evaluations'] = len(recs)
